@@ -24,6 +24,8 @@ RULE = ('seeded messages with 1-5 recipients over 1-3 domains through the '
         'policies (RecipientSplit, RecipientDomainSplit, Forward, header '
         'policies; repeated, any order) over a storage whose k-th write '
         'fails (QueueError with/without reply, other exception) or is slow, '
+        'optionally while 1-2 other clients\' slow writes occupy the bounded '
+        'store pool, '
         'or into a real ProxyQueue over a scripted relay (whole-message or '
         'per-recipient results); non-trivial = the policy chain produced >= 2 '
         'envelopes or a write/relay failure was injected; distinct = distinct '
@@ -43,9 +45,11 @@ BUDGET = {'quick': 20000, 'thorough': 500000}
 PROBES = ['split>=2', 'split>=3', 'failure-first-write', 'failure-last-write',
           'failure-middle-write', 'slow-write', 'qerr-with-reply',
           'non-queueerror', 'proxy-partial-result', 'proxy-whole-failure',
-          'wsgi', 'smtp', 'forward-policy', 'store-pool-bounded']
+          'wsgi', 'smtp', 'forward-policy', 'store-pool-bounded',
+          'competing-clients']
 STATES_MEASURE = 'distinct (edge, queue kind, #envelopes, index of failed write, failure kind)'
 STEP_CAP = 200000
+COMPETITOR = 'competitor@c.example'
 
 
 def generate(seed, tier='quick'):
@@ -79,6 +83,11 @@ def generate(seed, tier='quick'):
         scn['write_lat'] = rng.choice([0.0, 0.0, 0.001, 0.01])
         scn['slow'] = rng.choice([0.5, 2.0, 30.0])
         scn['store_pool'] = rng.choice([None, None, 1, 2])
+        if rng.random() < 0.35:
+            # other clients of the same queue whose (slow) writes hold the
+            # store pool's slots when this message is handed over
+            scn['competitor'] = {'n': rng.choice([1, 2]),
+                                 'slow': rng.choice([0.3, 2.0, 2.0])}
     else:
         t = rng.choice(['none', 'reply', 'temp', 'perm', 'map', 'map', 'seq'])
         spec = {'t': t, 'lat': rng.choice([0.0, 0.01, 1.0]), 'v': 0}
@@ -104,6 +113,13 @@ def faulty_store_class():
             self.n = 0
 
         def write(self, envelope, timestamp):
+            if envelope.sender == COMPETITOR:
+                # another client's message: slow, never failing, not part
+                # of the message under observation
+                self.world.log('WRITE', 'competitor', 'start')
+                gevent.sleep(self.scn['competitor']['slow'])
+                self.world.log('WRITE', 'competitor', 'end')
+                return self.inner.write(envelope, timestamp)
             k = self.n
             self.n += 1
             plan = self.scn['write_plan']
@@ -211,6 +227,13 @@ def execute(scn, debug=False):
         result = {'violations': []}
         fn = _smtp if scn['edge'] == 'smtp' else _wsgi
         world.probe(scn['edge'])
+        if scn.get('competitor') and scn['queue'] == 'queue':
+            from slimta.envelope import Envelope
+            world.probe('competing-clients')
+            for ci in range(scn['competitor']['n']):
+                env = Envelope(COMPETITOR, ['x%d@c.example' % ci])
+                env.parse(b'Subject: other\r\n\r\nother\r\n')
+                gevent.spawn(q.enqueue, env)
         g = gevent.spawn(fn, world, scn, q, result)
         ok = world.wait(g, 500.0)
         if not ok:
@@ -439,6 +462,10 @@ def shrink_candidates(scn, clause):
             c = dict(scn)
             c['write_plan'] = plan[:i] + ['ok'] + plan[i + 1:]
             yield c
+    if scn.get('competitor'):
+        c = dict(scn)
+        del c['competitor']
+        yield c
     if scn.get('store_pool'):
         c = dict(scn)
         c['store_pool'] = None
